@@ -52,8 +52,10 @@ _MONTHS = ["jan", "feb", "mar", "apr", "may", "jun", "jul", "aug", "sep", "oct",
 
 
 def parse_rfc1123(s: str):
-    """Only the fixed format the harness emits: 'Wdy, DD Mon YYYY HH:MM:SS GMT'."""
-    m = re.match(r"^\w{3}, (\d{2}) (\w{3}) (\d{4}) (\d{2}):(\d{2}):(\d{2}) GMT$", s)
+    """The shapes the harness emits: 'Wdy, DD Mon YYYY HH:MM:SS GMT', and the same without the weekday, without the
+    space behind the comma, or with another zone name (RFC 6265 5.1.1 finds the date tokens in all of them and
+    takes the time as UTC whatever the zone says)."""
+    m = re.match(r"^(?:\w{3},\s?)?(\d{2}) (\w{3}) (\d{4}) (\d{2}):(\d{2}):(\d{2})(?: \w+)?$", s)
     if not m:
         return None
     d, mon, y, hh, mm, ss = m.groups()
